@@ -20,9 +20,9 @@ HERE = os.path.dirname(os.path.abspath(__file__))
 VERIF = os.path.dirname(HERE)
 
 
-def collect():
+def collect(benign=False):
     out = []
-    d = os.path.join(VERIF, "selftest", "mutants")
+    d = os.path.join(VERIF, "selftest", "benign" if benign else "mutants")
     if os.path.isdir(d):
         for f in sorted(os.listdir(d)):
             if f.endswith(".patch"):
@@ -31,7 +31,7 @@ def collect():
                 m = re.search(r"^# property: (C\d+)", head, re.M)
                 out.append((f[:-6], m.group(1) if m else None, path))
     d = os.path.join(VERIF, "seeded")
-    if os.path.isdir(d):
+    if os.path.isdir(d) and not benign:
         for f in sorted(os.listdir(d)):
             p = os.path.join(d, f, "patch.diff")
             mp = os.path.join(d, f, "meta.json")
@@ -76,31 +76,39 @@ def main(argv):
     tier = "quick"
     budget = None
     names = []
+    benign = False
     it = iter(argv)
     for a in it:
-        if a == "--tier":
+        if a == "--benign":
+            # behaviour-preserving variants: the check must stay silent
+            benign = True
+        elif a == "--tier":
             tier = next(it)
         elif a == "--budget":
             budget = float(next(it))
         else:
             names.append(a)
     rows = []
-    for name, pid, patch in collect():
+    for name, pid, patch in collect(benign):
         if names and not any(n in name for n in names):
             continue
         if pid is None:
             print("%-40s no property header" % name)
             continue
         verdict, info, dt = run_one(name, pid, patch, tier, budget)
+        if benign:
+            verdict = {"MISSED": "SILENT", "CAUGHT": "FALSE-ALARM"}.get(
+                verdict, verdict)
         rows.append((name, pid, verdict))
         print("%-44s %s %-13s %5.1fs" % (name, pid, verdict, dt))
         for ln in info.splitlines():
             print("      " + ln[:160])
         sys.stdout.flush()
-    missed = [r for r in rows if r[2] != "CAUGHT"]
-    print("%d mutants, %d caught, %d not" % (len(rows),
-                                             len(rows) - len(missed),
-                                             len(missed)))
+    good = "SILENT" if benign else "CAUGHT"
+    missed = [r for r in rows if r[2] != good]
+    print("%d %s, %d %s, %d not" % (
+        len(rows), "benign variants" if benign else "mutants",
+        len(rows) - len(missed), good.lower(), len(missed)))
     return 1 if missed else 0
 
 
